@@ -114,6 +114,15 @@ def binary(op, a, b):
                 return ("int", x >> y)
             return _int(x << y)
         return TYPE
+    if op == ">>>":
+        # ECMAScript: ToUint32(x) >>> (y & 31).  Judged where that meaning is beyond doubt (x an int32, 0 <= y < 32);
+        # elsewhere the 64-bit integers of the subset make the intent unclear
+        if ka == kb == "int":
+            x, y = a[1], b[1]
+            if -(1 << 31) <= x < (1 << 31) and 0 <= y < 32:
+                return ("int", (x & 0xffffffff) >> y)
+            return UNSPEC
+        return TYPE
     if op in ("==", "!=", "<", "<=", ">", ">="):
         if ka != kb:
             return TYPE
